@@ -74,7 +74,11 @@ func ser(o types.Object, drop map[string]bool) string {
 	case types.Dict:
 		return serDict(o, drop)
 	case types.StreamDict:
-		d := map[string]bool{"Length": true}
+		// /Length: left out, except (for the model, which follows it) when it is a reference
+		d := map[string]bool{}
+		if _, isRef := o.Dict["Length"].(types.IndirectRef); !isRef || drop["Length"] {
+			d["Length"] = true
+		}
 		return "S " + serDict(o.Dict, d) + " =" + rawToken(o)
 	case types.ObjectStreamDict:
 		panic(unsupported{"objstm"})
@@ -131,7 +135,8 @@ func entryObject(e *model.XRefTableEntry) (types.Object, error) {
 
 type tableView struct {
 	nrs  []int
-	objs map[int]string // wire form
+	objs map[int]string // wire form (for the model; stream /Length kept when it is a reference)
+	txt  map[int]string // the same without any stream /Length
 	val  map[int]bool
 	lazy map[int]bool
 }
@@ -148,7 +153,7 @@ func view(ctx *model.Context, skip map[int]bool) (tv *tableView, err error) {
 			panic(e)
 		}
 	}()
-	tv = &tableView{objs: map[int]string{}, val: map[int]bool{}, lazy: map[int]bool{}}
+	tv = &tableView{objs: map[int]string{}, txt: map[int]string{}, val: map[int]bool{}, lazy: map[int]bool{}}
 	info := -1
 	if ctx.Info != nil {
 		info = ctx.Info.ObjectNumber.Value()
@@ -179,6 +184,11 @@ func view(ctx *model.Context, skip map[int]bool) (tv *tableView, err error) {
 		}
 		tv.nrs = append(tv.nrs, nr)
 		tv.objs[nr] = ser(o, drop)
+		if _, isStream := o.(types.StreamDict); isStream {
+			tv.txt[nr] = ser(o, map[string]bool{"Length": true})
+		} else {
+			tv.txt[nr] = tv.objs[nr]
+		}
 		tv.val[nr] = e.Valid
 		if _, ok := e.Object.(types.LazyObjectStreamObject); ok {
 			tv.lazy[nr] = true
@@ -213,7 +223,7 @@ func (tv *tableView) text(only map[int]bool) string {
 		if only != nil && !only[nr] {
 			continue
 		}
-		fmt.Fprintf(&b, "%s:%s;", vh.Int(int64(nr)), tv.objs[nr])
+		fmt.Fprintf(&b, "%s:%s;", vh.Int(int64(nr)), tv.txt[nr])
 	}
 	return b.String()
 }
